@@ -433,8 +433,11 @@ class SwiftTypesBackend(SwiftBaseBackend):
                     value = '{}{{ $0{} }}'.format(value,
                                                   list_nsnumber_type)
 
-            value = '{}{})'.format(value,
-                                   suffix)
+                # the suffix closes the blocks the prefix opened
+                value = '{}{}'.format(value,
+                                      suffix)
+
+            value = '{})'.format(value)
             return value
         elif is_user_defined_type(field_data_type):
             return '(arg{}.{})'.format('?' if field_nullable else '',
